@@ -389,7 +389,9 @@ pub fn gen_seq(rng: &Rng, kind: &str, _tier: Tier) -> Seq {
         }
         warmup = *b.pick(&[0u32, 0, 0, 0, 125, 126, 127, 128, 253, 254, 255, 256, 300]);
     }
-    Seq { plane: "p".to_string(), warmup, ops }
+    // Half of the sequences run on the crate's other public option set (see exec::open_rocks).
+    let plane = if rng.sub("rocks-opts").chance(1, 2) { "po" } else { "p" };
+    Seq { plane: plane.to_string(), warmup, ops }
 }
 
 pub fn generate(seed: u64, kind: &str, tier: Tier) -> StoreScenario {
